@@ -42,6 +42,8 @@ theorem bitLen_bytes (e : Nat) : ((Big.bitLen (e:Int)).toNat + 7) / 8 = Spec.byt
 
 theorem memorySize_zero : memorySize 0 = .ok 0 := by decide
 
+theorem memResize_zero (m : List Byte) : memResize m 0 = m := by simp [memResize]
+
 theorem computational_step (code : Array Byte) (s : VM) (op : Nat) (ws ws' : List W)
     (hop : op ∈ Spec.computational) (hcode : (code.getD s.pc 0).toNat = op)
     (hstack : s.stack = enc ws) (hlen : ws.length ≤ 1024)
@@ -54,7 +56,7 @@ theorem computational_step (code : Array Byte) (s : VM) (op : Nat) (ws ws' : Lis
   obtain ⟨hv, hcg, hmin, hmax, hh, hj, hr, _, hex, hdyn, hmem⟩ := hview
   unfold step
   simp only [hcode, hinfo, hv, hmin, hmax, hh, hj, hr, hmem, hstack, enc_length, Bool.not_true, Bool.false_eq_true,
-    if_false, memRequest, memorySize_zero, Bool.or_self]
+    if_false, memRequest, memorySize_zero, memResize_zero, Bool.or_self]
   have har1 : 1 ≤ Spec.arityOf op := by unfold Spec.arityOf; split_ifs <;> omega
   rw [if_neg (by omega), if_neg (by omega)]
   by_cases hE : op = 0x0a
